@@ -162,4 +162,10 @@ theorem C08_wiring2 :
     Sso.Generated.skel_okta_ValidateGroupMembership =
       ["if{", "return", "}", "call:len", "if{", "return", "}", "call:GetUserProfile", "if{", "return", "}", "call:len", "if{", "call:New", "return", "}", "range{", "range{", "if{", "call:append", "break", "}", "}", "}", "return"] := by decide
 
+/-- Tie (T1): `SetCookieStore` of the authenticator — two decodes of two configured secrets, the cookie store built from the cookie
+secret and the authorization-code cipher from the session key, in this order (a code and a session cookie are the same sealed
+format; only their keys keep them apart). -/
+theorem C08_skeleton_SetCookieStore : Sso.Generated.skel_auth_SetCookieStore =
+    ["func{", "call:DecodeString", "if{", "return", "}", "call:?", "call:NewMiscreantCipher", "if{", "return", "}", "call:DecodeString", "if{", "return", "}", "call:Sprintf", "call:CreateMiscreantCookieCipher", "func{", "store:c.CookieDomain", "store:c.CookieHTTPOnly", "store:c.CookieExpire", "store:c.CookieSecure", "return", "}", "call:NewCookieStore", "if{", "return", "}", "store:a.csrfStore", "store:a.sessionStore", "store:a.AuthCodeCipher", "return", "}", "return"] := by decide
+
 end Sso.AuthN
